@@ -100,6 +100,7 @@ def run_case(case, rec):
             wnio.add(wnio.write_resource(res_exp, work, random.Random(4), name='rexp.xml'))
             dbdir = fdb.dir
         outs = {}
+        failed = {}
         for hs in case['hashseeds']:
             cp = work / f'db-{hs}'
             shutil.copytree(dbdir, cp)
@@ -111,10 +112,7 @@ def run_case(case, rec):
             p = subprocess.run([sys.executable, '-m', 'vf.battery', str(cp), str(out), str(f10), order], env=e, capture_output=True,
                                text=True, timeout=1200)
             if p.returncode != 0 or not out.exists():
-                if 'wn/' in p.stderr and 'Traceback' in p.stderr:
-                    rec.violation('battery-raised', f'battery failed under PYTHONHASHSEED={hs}: {p.stderr[-600:]}')
-                else:
-                    rec.harness_errors.append(f'battery rc={p.returncode}: {p.stderr[-1500:]}')
+                failed[hs] = p.stderr[-1500:]
                 continue
             outs[hs] = json.loads(out.read_text())
             rec.event('transcript.lines', len(outs[hs]['lines']))
@@ -126,6 +124,15 @@ def run_case(case, rec):
             rec.done([case['seed'], hs], nontrivial=len(outs[hs]['lines']) >= 500,
                      sample={'hashseed': hs, 'lines': len(outs[hs]['lines']), 'first_lines': outs[hs]['lines'][:3]})
         env.rmtree(dbdir)
+        if failed and outs:
+            # the battery died under some hash seeds and ran through under others: the outcome depends on the seed
+            hs = sorted(failed)[0]
+            rec.violation('battery-raised-under-some-seeds', f'the battery failed under PYTHONHASHSEED in {sorted(failed)} but not in '
+                          f'{sorted(outs)}: {failed[hs][-600:]}')
+        elif failed:
+            # the same failure whatever the seed: nothing about reproducibility was observed for this database (inconclusive)
+            hs = sorted(failed)[0]
+            rec.harness_errors.append(f'battery failed under every hash seed: {failed[hs]}')
         seeds = sorted(outs)
         for a, b in zip(seeds, seeds[1:]):
             rec.event('seed.pairs.compared')
